@@ -163,6 +163,8 @@ func (config Config) New(session *packet.Session) (h *Handler, err error) {
 
 // Close free up internal resouces.
 func (h *Handler) Close() error {
+	h.Lock()
+	defer h.Unlock()
 	if h.closed {
 		return nil
 	}
